@@ -148,6 +148,10 @@ func (m *observerManager) AddObserver(o *Observer, w *World) {
 	o.id = m.pool.Get()
 
 	o.hasComps, o.hasWith, o.hasWithout = false, false, false
+	// Component IDs are specific to the world: rebuild the masks from scratch on every registration.
+	o.compsMask.Reset()
+	o.withMask.Reset()
+	o.withoutMask.Reset()
 
 	switch o.event {
 	case OnAddRelations, OnRemoveRelations:
